@@ -26,6 +26,7 @@ MOVE = '1.2.840.10008.5.1.4.1.2.1.2'
 GET = '1.2.840.10008.5.1.4.1.2.1.3'
 COMMIT = '1.2.840.10008.1.20.1'
 MSG_IDS = [0, 1, 2, 255, 256, 32767, 32768, 65534, 65535]
+MSG_IDS_T = sorted(set(MSG_IDS + [2 ** k for k in range(16)] + [2 ** k - 1 for k in range(1, 17)] + [3, 100, 1000, 10000, 50000]))
 PCS = [1, 3, 127, 255]
 OUTCOMES = {
     'echo': [0x0000, 0x0122, 'EHE'],
@@ -46,8 +47,8 @@ def domain(tier):
 def cases(tier, seed):
     for svc in OUTCOMES:
         for out in OUTCOMES[svc]:
-            for mid in MSG_IDS:
-                for pc in PCS:
+            for mid in (MSG_IDS if tier == 'quick' else MSG_IDS_T):
+                for pc in (PCS if tier == 'quick' else [1, 3, 5, 63, 127, 129, 253, 255]):
                     for ul in ((24,) if (mid + pc) % 3 and tier == 'quick' else (1, 2, 63, 64, 24)):
                         yield {'svc': svc, 'outcome': out, 'mid': mid, 'pc': pc, 'uidlen': ul}
 
